@@ -372,7 +372,7 @@ func run(c *lib.Ctx) error {
 	// ---- M: design properties, with free body operations in every order
 	mos := []genRun{{"MCPorts(body)", 1, 1, 3, c.Pick(1, 3), false}, {"MCPorts(body,piped)", 1, 0, c.Pick(2, 3), 1, true}}
 	for _, mo := range mos {
-		r, err := c.TLC(mo.Name, lib.TLCRun{Dir: dir, Module: "MCPorts", Workers: 4, Timeout: 10 * time.Minute, HeapGB: 6,
+		r, err := c.TLC(mo.Name, lib.TLCRun{Dir: dir, Module: "MCPorts", Workers: 4, Timeout: 40 * time.Minute, HeapGB: 6,
 			Files: map[string][]byte{"MCPorts.cfg": mcCfg(mo.MaxR, 2, mo.Neg, mo.Hi, mo.NPresent, mo.Piped, false, append(designInvs, "EarlyAgreesProbed")...)}})
 		if err != nil {
 			return err
@@ -386,12 +386,12 @@ func run(c *lib.Ctx) error {
 	// ---- M + G: every redirection sequence, emitted with prescribed outcomes
 	gens := []genRun{{"MCPorts(G,depth2)", 2, 2, 4, c.Pick(1, 3), false}, {"MCPorts(G,depth2,piped)", 2, c.Pick(0, 1), c.Pick(2, 3), 1, true}}
 	if c.Thorough() {
-		gens = append(gens, genRun{"MCPorts(G,depth3)", 3, 0, 3, 1, false})
+		gens = append(gens, genRun{"MCPorts(G,depth3)", 3, 0, 2, 1, false})
 	}
 	c.Set("bounds", map[string]any{"G": gens, "M_body": mos})
 	total := 0
 	for gi, g := range gens {
-		r, err := c.TLC(g.Name, lib.TLCRun{Dir: dir, Module: "MCPorts", Workers: 8, Timeout: 12 * time.Minute, HeapGB: 8,
+		r, err := c.TLC(g.Name, lib.TLCRun{Dir: dir, Module: "MCPorts", Workers: 4, Timeout: 40 * time.Minute, HeapGB: 8,
 			Files: map[string][]byte{"MCPorts.cfg": mcCfg(g.MaxR, 0, g.Neg, g.Hi, g.NPresent, g.Piped, true, append(designInvs, "Emit")...)}})
 		if err != nil {
 			return err
